@@ -1,6 +1,6 @@
 (* C10 property theorems. Nothing but statements closed by `exact lemma` and Print Assumptions, plus Examples. *)
 From Coq Require Import NArith List Bool.
-From OG Require Import C10.Model C10.Proofs C10.Regex C10.RegexProofs C10.RegexSem C10.RegexNew C10.RegexAlt C10.RegexSearch C10.FlushClear C10.ListingCond C10.Prune.
+From OG Require Import C10.Model C10.Proofs C10.Regex C10.RegexProofs C10.RegexSem C10.RegexNew C10.RegexAlt C10.RegexSearch C10.FlushClear C10.ListingCond C10.Prune C10.Cache.
 Import ListNotations.
 Open Scope N_scope.
 
@@ -264,3 +264,25 @@ Proof.
   apply (star_step _ 0 1 3)%nat; [exists 119%N; auto |]. apply (star_step _ 1 2 3)%nat; [exists 101%N; auto |].
   apply (star_step _ 2 3 3)%nat; [exists 98%N; auto | constructor].
 Qed.
+
+(* ---- the tag-filter result cache inside the index model (Cache.v): filters answered from a cache keyed by (generation,
+   measurement, key, operator, value), the generation bumped by the flush callback and by DROP SERIES. When the callback
+   runs with every flush that made items visible (repaired), EVERY search of EVERY sequence of insert / forced flush /
+   background flush / tick / cache clear / reopen / drop series / search returns the uncached answer ... ---- *)
+Theorem C10_result_cache_transparent : forall am n os,
+  Forall (fun x => match x with Some (a, u) => a = u | None => True end) (crun true am (cempty n) os).
+Proof. exact cache_transparent_from_empty. Qed.
+(* ... which is the set-algebra search over the flushed items without the dropped ids (and so, by C10_search_is_bruteforce,
+   the predicate's meaning on the live series) *)
+Theorem C10_uncached_answer_is_search_minus_dropped : forall am c m e id,
+  In id (search_plain am c m e) <-> In id (search am (postings (vis (ix c))) m e) /\ ~ In id (dropped c).
+Proof. exact search_plain_spec. Qed.
+Print Assumptions C10_result_cache_transparent.
+Print Assumptions C10_uncached_answer_is_search_minus_dropped.
+
+Example C10_cache_example :
+  let s1 := mkS 1 [(1, 1)] in let s2 := mkS 1 [(1, 1); (2, 3)] in
+  crun true (fun _ _ => false) (cempty 100)
+       [OInsert s1; OFlush; OSearch 1 (Atom 1 Eq 1); OInsert s2; OBgFlush; OSearch 1 (Atom 1 Eq 1); ODrop [101]; OSearch 1 (Atom 1 Eq 1)] =
+    [None; None; Some ([101], [101]); None; None; Some ([101; 102], [101; 102]); None; Some ([102], [102])].
+Proof. vm_compute. reflexivity. Qed.
